@@ -50,5 +50,8 @@ PROPERTIES = {
                 assumptions=['predicates are pure functions of (key, value)']),
     'C11': dict(units=ENGINES + WRAPPERS, explanation='wrapper contracts on the expansions of invalidate_on fixtures: a stale hit is never returned, the body reruns and the fresh result replaces the entry (last store wins in all three engines); a valid hit is served without the body',
                 assumptions=['the check is a pure function of (key, value) during one call']),
+    'C13': dict(units=['wrappers_global', 'wrappers_async'] + ENGINES,
+                explanation='conditional-invalidation callbacks as emitted by the real macros (one verified representative per emitted shape): exactly the stored keys satisfying the predicate leave store and queue, survivors untouched, queue order preserved, representation invariant re-established -- so that by the engine contracts later limits / evictions / totals are those of a cache in which the keys were never stored',
+                assumptions=['R8: the user predicate is a pure function of the key', 'registry dispatch (which callback is invoked for which name) is covered by unit registry (C12)']),
     'C15': dict(units=ENGINES, explanation='exactly one counter is bumped by exactly one per lookup'),
 }
